@@ -1,6 +1,7 @@
 import LinfaSpec.Proofs.Smo
 import LinfaSpec.Proofs.SmoKkt
 import LinfaSpec.Proofs.SmoPub
+import LinfaSpec.Proofs.SmoGrad
 import Mathlib.Algebra.Order.Field.Rat
 
 /-!
@@ -589,6 +590,31 @@ theorem solve_support_is_nonzero (e : Env α) (thr : α) (shrinking : Bool) (fue
   refine ⟨h1, ?_, ?_⟩
   · rw [h1]; exact nsupport_counts_nonzero thr _
   · intro kf; rw [h1]; exact weightedSum_pairs thr _ kf
+
+/-- **one SMO step keeps the gradient invariant `G_k = p_k + Σ_l Q_kl α_l` on the active positions**
+(`Q_kl` = entry `k` of `kernel.distances(l, ·)` as the kernel wrapper of the state serves it — any of the
+three wrappers, any kernel matrix, symmetric or not): the incremental update
+`G_k += Q_ki Δα_i + Q_kj Δα_j` of `update` is exact, for every pair of distinct active positions and every
+step length / clipping case.  Hypotheses = what `SolverState::new` establishes (sizes).
+
+PARTIAL with respect to the statement one wants: *the gradient the main loop holds when it stops is
+`p + Qα` of the published point* (so that `solve_returns_kkt_or_maxiter` speaks about the true gradient).
+Missing: the same invariant through `swap` / `do_shrinking` (positions beyond `nactive` hold stale
+gradients by design), through both branches of `reconstruct_gradient` (needs the companion invariant
+`Ḡ_k = Σ_{l at upper bound} C_l Q_kl` that `update` maintains on **all** positions) and through
+`SolverState::new`.  Those stay with the oracle clauses `gradient_active`, `gradient_fixed`,
+`gradient_reconstructed` (every scripted step) and with the bit-for-bit correspondence. -/
+theorem gradient_invariant_partial (e : Env α) (s : St α) (i j : Nat) (hij : i ≠ j)
+    (hi : i < s.nactive) (hj : j < s.nactive) (hn : s.nactive ≤ s.alpha.length)
+    (hg : s.grad.length = s.alpha.length) (h : GradOK e s) : GradOK e (update e s i j) :=
+  update_gradOK e s i j hij hi hj hn hg h
+
+/-- the two-sample optimum holds the exact gradient: `Q = [[1,1],[1,1]]`, `p + Qα = -1 + 1/2 + 1/2 = 0` -/
+example : GradOK kEnv kSt := by
+  intro k hk
+  have : k = 0 ∨ k = 1 := by simp only [kSt] at hk; omega
+  rcases this with h | h <;> subst h <;>
+    norm_num [kSt, kEnv, Qe, dist, gf, gb, gn, kEntry, Finset.sum_range_succ, List.range_succ]
 
 /-- the example's `active_set` is a 3-cycle (not an involution): variable values `[0, 1/2, 2]` at
 positions 0,1,2 belong to samples 2,0,1 -/
